@@ -1,1 +1,8 @@
 import QV.Core.Num
+import QV.Core.Tab
+import QV.Lemmas.Bridge
+import QV.Lemmas.Taylor
+import QV.Props.C16
+import QV.Props.C17
+import QV.Props.C19
+import QV.Props.C20
